@@ -11,7 +11,7 @@ pub(crate) struct OutDeleteOutput {
     recovered_mb: f64,
 }
 pub(crate) fn out_delete(
-    out_dir: &str,
+    out_dir: &path::Path,
     input: &OutDeleteInput,
 ) -> Result<OutDeleteOutput, MonorailError> {
     let recovered_mb = calculate_dir_size_in_mb(out_dir)?;
